@@ -60,6 +60,7 @@ type event struct {
 	pos   token.Pos
 	prev  *event // program-order predecessor
 	match *event // unlock for a lock
+	src   *event // send / close that a channel receive observed
 }
 
 func (i *interpreter) logEvent(th *thread, kind string, obj, n int, name string, fr *frame) *event {
@@ -218,6 +219,8 @@ func (i *interpreter) describeBlocked() string {
 				parts = append(parts, fmt.Sprintf("goroutine %d blocked on mutex %s", t.id, w.name))
 			case *wgState:
 				parts = append(parts, fmt.Sprintf("goroutine %d blocked in WaitGroup.Wait (counter %d)", t.id, w.counter))
+			case *chanv:
+				parts = append(parts, fmt.Sprintf("goroutine %d blocked on channel %d", t.id, w.id))
 			default:
 				parts = append(parts, fmt.Sprintf("goroutine %d blocked", t.id))
 			}
@@ -339,6 +342,138 @@ func (i *interpreter) wgWait(fr *frame, p *value) {
 		i.block(th, w)
 	}
 	i.logEvent(th, "wait", w.id, 0, w.name, fr)
+}
+
+// ---- channels and sync.Once ----------------------------------------------------
+
+type chanv struct {
+	id     int
+	cap    int
+	buf    []value
+	bufEv  []*event
+	sendq  []*pendingSend
+	closed bool
+	closeE *event
+	elemT  types.Type
+}
+
+type pendingSend struct {
+	v     value
+	ev    *event
+	taken bool
+}
+
+func (i *interpreter) wakeChan(ch *chanv) {
+	for _, t := range i.threads {
+		if t.state == tBlocked && t.waitOn == ch {
+			t.state = tRunnable
+		}
+	}
+}
+
+func (i *interpreter) chanSend(fr *frame, ch *chanv, v value) {
+	th := fr.th
+	if ch == nil {
+		i.block(th, "nil channel")
+		panic(engineAbort{kind: "deadlock", msg: "send on nil channel"})
+	}
+	if ch.closed {
+		panic(runtimePanic("send on closed channel"))
+	}
+	e := i.logEvent(th, "chsend", ch.id, 0, "", fr)
+	if len(ch.buf) < ch.cap {
+		ch.buf = append(ch.buf, v)
+		ch.bufEv = append(ch.bufEv, e)
+		i.wakeChan(ch)
+		return
+	}
+	ps := &pendingSend{v: v, ev: e}
+	ch.sendq = append(ch.sendq, ps)
+	i.wakeChan(ch)
+	for !ps.taken {
+		if ch.closed {
+			panic(runtimePanic("send on closed channel"))
+		}
+		i.block(th, ch)
+	}
+}
+
+func (i *interpreter) chanRecv(fr *frame, ch *chanv) (value, bool) {
+	th := fr.th
+	if ch == nil {
+		i.block(th, "nil channel")
+		panic(engineAbort{kind: "deadlock", msg: "receive from nil channel"})
+	}
+	for {
+		if len(ch.buf) > 0 {
+			v, src := ch.buf[0], ch.bufEv[0]
+			ch.buf, ch.bufEv = ch.buf[1:], ch.bufEv[1:]
+			if len(ch.sendq) > 0 {
+				ps := ch.sendq[0]
+				ch.sendq = ch.sendq[1:]
+				ch.buf = append(ch.buf, ps.v)
+				ch.bufEv = append(ch.bufEv, ps.ev)
+				ps.taken = true
+			}
+			e := i.logEvent(th, "chrecv", ch.id, 0, "", fr)
+			e.src = src
+			i.wakeChan(ch)
+			return v, true
+		}
+		if len(ch.sendq) > 0 {
+			ps := ch.sendq[0]
+			ch.sendq = ch.sendq[1:]
+			ps.taken = true
+			e := i.logEvent(th, "chrecv", ch.id, 0, "", fr)
+			e.src = ps.ev
+			i.wakeChan(ch)
+			return ps.v, true
+		}
+		if ch.closed {
+			e := i.logEvent(th, "chrecv", ch.id, 0, "", fr)
+			e.src = ch.closeE
+			return zero(ch.elemT), false
+		}
+		i.block(th, ch)
+	}
+}
+
+func (i *interpreter) chanClose(fr *frame, ch *chanv) {
+	if ch == nil {
+		panic(runtimePanic("close of nil channel"))
+	}
+	if ch.closed {
+		panic(runtimePanic("close of closed channel"))
+	}
+	ch.closed = true
+	ch.closeE = i.logEvent(fr.th, "chclose", ch.id, 0, "", fr)
+	i.wakeChan(ch)
+}
+
+type onceState struct {
+	done bool
+	m    *value
+}
+
+func (i *interpreter) onceDo(fr *frame, p *value, f value) {
+	if i.onces == nil {
+		i.onces = map[*value]*onceState{}
+	}
+	o, ok := i.onces[p]
+	if !ok {
+		o = &onceState{m: new(value)}
+		i.onces[p] = o
+	}
+	i.mutexLock(fr, o.m)
+	if !o.done {
+		defer func() {
+			o.done = true
+			i.mutexUnlock(fr, o.m)
+		}()
+		call(i, fr, 0, f, nil)
+		return
+	}
+	i.mutexUnlock(fr, o.m)
 }
 
 // ---- tracked locations -------------------------------------------------------
@@ -520,6 +655,9 @@ func (i *interpreter) scheduleConstraints() {
 				s.Assert(smt.IntCmp("<", tsVar(e), tsVar(b)))
 			}
 		}
+		if e.kind == "chrecv" && e.src != nil {
+			s.Assert(smt.IntCmp("<", tsVar(e.src), tsVar(e)))
+		}
 	}
 	// mutual exclusion
 	type section struct{ l, u *event }
@@ -597,7 +735,11 @@ func (i *interpreter) schedQuery(cond *smt.Term) (smt.Result, map[string]string,
 		if e.match != nil {
 			m = e.match.id
 		}
-		fmt.Fprintf(&sig, "%d:%d:%s:%d:%d:%d:%d;", e.id, e.th, e.kind, e.obj, e.n, p, m)
+		sr := -1
+		if e.src != nil {
+			sr = e.src.id
+		}
+		fmt.Fprintf(&sig, "%d:%d:%s:%d:%d:%d:%d:%d;", e.id, e.th, e.kind, e.obj, e.n, p, m, sr)
 	}
 	sig.WriteString(cond.S)
 	key := sig.String()
